@@ -144,6 +144,85 @@ def r09_6(ctx):
     ctx.floor("R09.6", 8)
 
 
+def forward_scenarios(model):
+    """_SdeintAdjointMethod.forward evaluated for every (adaptive, outcome of a grid-alignment test) combination: the calls
+    it makes to solver.integrate and what it returns."""
+    from .c10 import make_ctx
+    fwd = model.func(ADJOINT, "_SdeintAdjointMethod.forward")
+    out = []
+    for adaptive in (False, True):
+        for aligned in (True, False):
+            seen = []
+
+            class H(Hooks):
+                def tensor_method(self, interp, recv, name, args, kwargs, node, fi):
+                    if name == "detach":
+                        return nf.linear("DETACH", (), Rat.lift(recv))
+                    if name in ("round", "abs", "floor", "ceil"):
+                        return nf.fn(name, recv)
+                    return NotImplemented
+
+                def external_call(self, interp, dotted, args, kwargs, node, fi, aligned=aligned):
+                    if dotted in ("torch.allclose", "torch.isclose", "torch.equal"):
+                        return aligned                   # whether the output times lie on the step grid: both outcomes
+                    if dotted == "torch.stack":
+                        return Cat("stack", list(args[0]), kwargs.get("dim", args[1] if len(args) > 1 else Fraction(0)))
+                    return NotImplemented
+
+                def subscript(self, interp, recv, index, node, fi):
+                    if isinstance(recv, Rat) and nf.equal(recv, nf.sym("ts")) and isinstance(index, slice):
+                        lo = "a" if index.start is None else "b"
+                        return [nf.sym(f"ts[{lo}]", True), nf.sym(f"ts[{lo}+1]", True)]
+                    return NotImplemented
+            ctx_obj = make_ctx([], [])
+
+            def integrate(it, a, k, n, f):
+                seen.append(tuple(a))
+                whole = isinstance(a[1], Rat) and nf.equal(a[1], nf.sym("ts"))
+                ys = nf.sym("YS") if whole else [nf.fn("YS_PIECE", Fraction(len(seen)), Fraction(r)) for r in range(2)]
+                return (ys, (nf.sym("E1"),))
+            solver = Obj("solver", attrs={"integrate": Intrinsic("integrate", integrate), "adaptive": adaptive,
+                                          "dt": nf.sym("dt", True), "rtol": nf.sym("rtol", True), "atol": nf.sym("atol", True),
+                                          "dt_min": nf.sym("dt_min", True), "options": {}})
+            it = Interp(model, H())
+            y0, x1 = nf.sym("y0"), nf.sym("X1")
+            ts = nf.sym("ts")            # a tensor symbol: arithmetic on it is symbolic; slices of it are short lists of times
+            args = [ctx_obj, Obj("sde"), ts, nf.sym("dt", True), Obj("bm"), solver, "midpoint", "midpoint", False,
+                    nf.sym("rtol", True), nf.sym("atol", True), nf.sym("dt_min", True), {}, Fraction(1), y0, x1, nf.sym("P1")]
+            try:
+                ret = it.call_function(fwd, args, {})
+                err = None
+            except (SimRaise, AnalysisError) as e:
+                ret, err = None, e
+            out.append(dict(adaptive=adaptive, aligned=aligned, seen=seen, ret=ret, err=err, ts=ts, y0=y0, x1=x1, fwd=fwd))
+    return out
+
+
+def r09_7(ctx):
+    """'sdeint_adjoint returns exactly the solution values sdeint returns': the Function's forward is one call of
+    solver.integrate over the whole of ts -- the very call sdeint makes -- whatever the step-size mode and wherever the output
+    times lie relative to the step grid.  (Integrating interval by interval restarts the grid at every output time.)"""
+    rep, model = ctx.rep, ctx.model
+    rep.rule("R09.7", "the adjoint Function's forward makes exactly one solver.integrate(y0, ts, extras) call over all output "
+                      "times, for fixed and adaptive steps, output times on or off the step grid")
+    for sc in forward_scenarios(model):
+        fwd = sc["fwd"]
+        rep.analysed(fwd)
+        label = f"adaptive={sc['adaptive']},ts-on-grid={sc['aligned']}"
+        if sc["err"] is not None:
+            e = sc["err"]
+            raise e if isinstance(e, AnalysisError) else AnalysisError(f"forward could not be evaluated ({label}): {e}", where=astq.loc(fwd))
+        seen = sc["seen"]
+        ok = len(seen) == 1 and len(seen[0]) >= 3 and nf.equal(seen[0][0], nf.linear("DETACH", (), sc["y0"])) \
+            and isinstance(seen[0][1], Rat) and nf.equal(seen[0][1], sc["ts"])
+        rep.check(ok, "R09.7", astq.loc(fwd), f"{fwd.key}::R09.7::{label}",
+                  f"forward ({label}) calls solver.integrate {len(seen)} time(s)"
+                  + (f", first with time argument `{seen[0][1]!r}`" if seen else "")
+                  + ": sdeint makes one call over the whole of ts; anything else steps on a different grid (restarted at the output "
+                    "times), so the adjoint's forward values are not sdeint's", "one integrate(y0, ts, extras) call")
+    ctx.floor("R09.7", 4)
+
+
 def r09_2(ctx):
     rep, model = ctx.rep, ctx.model
     rep.rule("R09.2", "autograd.Function arity: .apply arguments bind to forward's parameters by role; backward returns "
@@ -477,6 +556,7 @@ def run(ctx):
     ctx.guard(r09_4)
     ctx.guard(r09_5)
     ctx.guard(r09_6)
+    ctx.guard(r09_7)
     # "gradients converge to the true gradient": the adjoint vector fields integrated by the backward solve are the
     # prescribed ones in every (sde_type, noise_type) cell (rules of C11)
     from . import c11
